@@ -216,8 +216,20 @@ func VerifHarness_C19_build() {
 // C19_dangling: one reference points at an undefined field or component: the file is refused.
 func VerifHarness_C19_dangling() {
 	doc, grp := c19Doc()
-	site := verifConc(ndInt("site", 0, 5))
+	site := verifConc(ndInt("site", 0, 8))
 	switch site {
+	case 6, 7, 8:
+		// a component that no message, header or trailer uses, declared last: its references count all the same
+		var m *XMLComponentMember
+		switch site {
+		case 6:
+			m = c19Field("Nope", "N")
+		case 7:
+			m = c19Comp("NoComp", "N")
+		default:
+			m = c19Group("F7", "N", c19Field("Nope", "N"))
+		}
+		doc.Components = append(doc.Components, &XMLComponent{Name: "Unused", Members: []*XMLComponentMember{c19Field("F1", "N"), m}})
 	case 0:
 		doc.Messages[0].Members[0].Name = "Nope" // field of the message
 	case 1:
